@@ -88,6 +88,8 @@ check("C03", "transactions are all-or-nothing", [
 check("C04", "transactions are serializable with respect to each other", [
     ob("VerifC04_TwoTxSerializable", "pkg/engine", "two concurrent transactions (read-only: read both keys; read-write: read, put/delete, read back, commit/rollback) on the real EngineFacade: every explored interleaving's reads and final state equal one of the two serial orders, consistent with real time",
        "2 transactions x 18 shapes each over 2 keys, symbolic values, preemption bound 1", "preemption bound 2", q=P1, t={"preempt": 2, "budget_s": 1200}, no_validate=True),
+    ob("VerifC04_ReaderEndedByAnotherGoroutine", "pkg/engine", "a transaction that has read a key reads it again while another goroutine ends it (what the stale-transaction sweep, connection cleanup and shutdown do) and a waiting writer overwrites the key and commits: the second read fails or returns what the first returned",
+       "read-only or read-write reader, 1 key, symbolic values, 2 threads, preemption bound 1", "preemption bound 2", q=P1, t={"preempt": 2, "budget_s": 600}, no_validate=True),
     ob("VerifC17_TxCallSequences", "pkg/transaction", "lock discipline of one transaction: isolation lock held in the right mode from begin to the first finish, every storage access under it, released exactly once; own writes read back; nothing reaches storage before commit",
        "<=4 calls, 2 keys", "<=5 calls"),
 ], [SIMFS, CLOCK, HASH, BLOOM, JSON, RAND, LOG, "Tier B: schedules enumerated exhaustively up to the preemption bound; data symbolic in every schedule"], ["more than 2 concurrent transactions", "writes issued outside transactions (excluded by the property)"])
@@ -117,6 +119,8 @@ check("C06", "concurrent gets, puts and deletes are linearizable", [
 check("C07", "no race, crash or hang under concurrent use", [
     ob("VerifC07_Pairs", "pkg/engine", "every unordered pair of thirteen EngineFacade entry points from two goroutines: no data race, panic, deadlock; both return",
        "91 pairs of 13 entry points (put, get, delete, scan, tx, flush, stats, batch, is-deleted, read-only tx, tx with a refused commit, compaction, range scan + compaction stats), preemption bound 1", "preemption bound 2", q=P1, t={"preempt": 2, "budget_s": 1200}, no_validate=True, termination=True),
+    ob("VerifC07_PairsOnAgedEngine", "pkg/engine", "the same pairs on an engine with a history: two flushed level-0 tables, one completed compaction cycle with output files, with or without a restart on those files (state that only exists after maintenance is shared too)",
+       "91 pairs x {running, restarted}, preemption bound 0 (the race detector is happens-before based and does not need a preemption to see an unsynchronised pair)", "preemption bound 1", q={"preempt": 0, "budget_s": 500}, t={"preempt": 1, "budget_s": 1200}, no_validate=True, termination=True),
     ob("VerifC07_WritersVsBackgroundFlush", "pkg/engine", "two clients writing twice each into an engine with a 1-byte memtable while the real background flush goroutine runs as a third thread (explicit flush as a fourth in thorough): no race/panic/deadlock, every call returns, last acknowledged writes readable",
        "3 threads, preemption bound 1, background flush loop started as a thread", "4 threads", q={"preempt": 1, "background": ["backgroundFlush"], "budget_s": 500}, t={"preempt": 1, "background": ["backgroundFlush"], "budget_s": 1200}, no_validate=True, termination=True),
     ob("VerifC07_TombstoneTracker", "pkg/compaction", "TombstoneTracker.AddTombstone || ShouldKeepTombstone", "2 threads, preemption bound 1", q=P1, no_validate=True),
